@@ -2814,7 +2814,29 @@ def r100(ctx: Ctx) -> RuleReport:
         elif not conds:
             rep.violation(key, rv.loc(g), 'the target of the FIRST branch is taken whatever its role: for a node without a concept, e.g. (b :ARG0 c), the prefix comes from "c" instead of being "_"')
         else:
-            rep.undecided(key, rv.loc(g), sorted(srcs)[0][:50])
+            # a predicate helper on the role: what else than "/" does it accept?
+            wider = None
+            for c in conds:
+                for x in ast.walk(c):
+                    if isinstance(x, ast.Call) and isinstance(x.func, ast.Name) and x.func.id in rv.module.functions and x.args and norm(x.args[0]) == r_:
+                        h_ = rv.module.functions[x.func.id]
+                        rets_ = [y for y in walk_local(h_.node) if isinstance(y, ast.Return) and y.value is not None]
+                        if len(rets_) == 1 and h_.positional:
+                            hp_ = h_.positional[0]
+                            alts_ = rets_[0].value.values if isinstance(rets_[0].value, ast.BoolOp) and isinstance(rets_[0].value.op, ast.Or) else [rets_[0].value]
+                            srcs_ = [norm(a_).replace(' ', '') for a_ in alts_]
+                            if f"{hp_}=='/'" in srcs_ and len(srcs_) > 1:
+                                extra_ = [a_ for a_, s_ in zip(alts_, srcs_) if s_ != f"{hp_}=='/'"]
+                                if any(isinstance(y, ast.Call) and isinstance(y.func, ast.Attribute) and y.func.attr in ('startswith', 'endswith') for e_ in extra_ for y in ast.walk(e_)) \
+                                        or any(isinstance(e_, ast.Compare) for e_ in extra_):
+                                    wider = (h_, extra_[0])
+            if wider:
+                h_, e_ = wider
+                rep.violation(key, rv.loc(g), f'the concept branch is recognised with {h_.qualname}, which is also true when `{norm(e_)}`: in a tree the concept branch is "/" and nothing else - a '
+                              f'role that merely begins like the concept role (":instance-of" is an ordinary inverted role whose target is a VARIABLE) is then treated as the concept, so '
+                              f'the reference under it is not renamed with its node and the relabelled tree is no longer the same graph')
+            else:
+                rep.undecided(key, rv.loc(g), sorted(srcs)[0][:50])
     return rep
 
 
@@ -4032,4 +4054,44 @@ def r145(ctx: Ctx) -> RuleReport:
                               f'a symbol or a variable that differs only in case comes back changed - "(a / alpha~E.1)" is written again as "(a / alpha~e.1)", so encode(decode(s)) is '
                               f'not the text that was read')
     rep.analysed['case_changing_calls'] = n
+    return rep
+
+
+# ---------------------------------------------------------------------------------------------
+@rule('R147', 'values are never compared by identity (`is` / `is not`) unless one side is a singleton (None, True, False, a module-level sentinel object)')
+def r147(ctx: Ctx) -> RuleReport:
+    rep = RuleReport('R147', r147.title, floor=0)
+    n_cmp = 0
+    for fi in ctx.repo.all_functions():
+        for n in walk_local(fi.node):
+            if not (isinstance(n, ast.Compare) and any(isinstance(o, (ast.Is, ast.IsNot)) for o in n.ops)):
+                continue
+            sides = [n.left] + list(n.comparators)
+            if any(isinstance(s_, ast.Constant) and (s_.value is None or isinstance(s_.value, bool) or s_.value is Ellipsis) for s_ in sides):
+                continue
+            # a module-level sentinel: a NAME bound once at module level to a call without arguments (POP = Pop()), or a class
+            def sentinel(e):
+                if isinstance(e, ast.Name) and e.id.isupper():
+                    return True
+                if isinstance(e, ast.Name) and (e.id in fi.module.classes or e.id in ('NotImplemented',)):
+                    return True
+                if isinstance(e, ast.Call) and norm(e.func) == 'type':
+                    return True
+                return False
+            if any(sentinel(s_) for s_ in sides):
+                continue
+            # only immutable atoms: for lists, dicts and node tuples "the same object" is a well-defined question (a fresh list, a shared sub-tree)
+            def atomic_typed(e):
+                try:
+                    ts_ = ctx.types.type_of(fi, e)
+                except Exception:
+                    return False
+                return bool(ts_) and any(t_[0] in ('str', 'int', 'float', 'Const', 'Var', 'Role') for t_ in ts_)
+            if not getattr(ctx, '_is_probe', False) and not all(atomic_typed(s_) for s_ in sides):
+                continue
+            n_cmp += 1
+            rep.violation(f'{fi.fq}: `{norm(n)[:50]}`', fi.loc(n), f'`{norm(n)[:50]}` asks whether two values are the SAME OBJECT. For strings and numbers that depends on interning and caching, '
+                          f'not on the value: a symbol that evaluate() hands back through the decoder hook ("NaN", "Infinity") is an equal but different str for text that comes from '
+                          f'the lexer, and the same object for a literal - the answer differs between inputs that are equal, and between processes')
+    rep.analysed['identity_comparisons_without_a_singleton'] = n_cmp
     return rep
